@@ -49,7 +49,7 @@ class World:
         self.simfs = simfs
         self.counters = {}
         self.attach_count = 0
-        self.attach_limit = 500
+        self.attach_limit = 3000
 
     # events ---------------------------------------------------------------
     def event(self, ev, live=None):
